@@ -75,6 +75,31 @@ class Poly:
             tot += t
         return tot
 
+    def subs_partial(self, env):
+        """replace the symbols in env (sym -> number) and keep the others"""
+        out = {}
+        for k, v in self.m.items():
+            c = Fraction(v)
+            rest = []
+            for s in k:
+                if s in env:
+                    c *= env[s]
+                else:
+                    rest.append(s)
+            key = tuple(sorted(rest))
+            out[key] = out.get(key, Fraction(0)) + c
+        return Poly({k: v for k, v in out.items() if v != 0})
+
+    def subs_poly(self, sym, q):
+        """replace the symbol `sym` by the polynomial q"""
+        out = Poly({})
+        for k, v in self.m.items():
+            term = Poly({(): Fraction(v)})
+            for s in k:
+                term = term * (q if s == sym else Poly.sym(s))
+            out = out + term
+        return out
+
     def normalised_int(self):
         """scale by a positive rational so that coefficients are coprime integers"""
         if not self.m:
@@ -167,6 +192,7 @@ class Sym:
         self.b2i = {}        # symbol name -> (op, Poly a, Poly b): the comparison whose truth the 0/1 symbol carries
         self.divrem = {}     # symbol name -> ("div"|"rem", operand Poly, k)
         self.phis = {}       # symbol name -> [alternative Polys]
+        self.phi_defs = {}   # symbol name -> [(defining block, Poly)] when every definition is a whole assignment
         self.sym_terms = {}  # symbol name -> term it stands for (opaque symbols)
 
     # ------------------------------------------------------------------ names of input selections
@@ -267,6 +293,26 @@ class Sym:
     # ------------------------------------------------------------------ polynomials
     def poly(self, t):
         t = strip(t)
+        ct = getattr(self, "case_terms", None)
+        if ct and t in ct:
+            v = ct[t]
+            v = v if isinstance(v, Poly) else Poly.const(v)
+            # the replacement may itself mention other case symbols / terms
+            for _ in range(4):
+                hit = False
+                for sname in list(v.syms()):
+                    tt = self.sym_terms.get(sname)
+                    if tt is not None and strip(tt) in ct and strip(tt) != t:
+                        r = ct[strip(tt)]
+                        v = v.subs_poly(sname, r if isinstance(r, Poly) else Poly.const(r))
+                        hit = True
+                    elif sname in (self.case_env or {}):
+                        r = self.case_env[sname]
+                        v = v.subs_poly(sname, r if isinstance(r, Poly) else Poly.const(r))
+                        hit = True
+                if not hit:
+                    break
+            return v
         key = t
         try:
             if key in self._poly:
@@ -279,8 +325,25 @@ class Sym:
             self._poly[key] = p
         return p
 
+    def set_cases(self, env):
+        """case environment {symbol: number | Poly}: every polynomial (hence every canonical name built from one) is
+        computed with these symbols replaced; used to split a path into the cases of a branch-defined value"""
+        env = env or {}
+        self.case_env = {k: v for k, v in env.items() if isinstance(k, str)}
+        self.case_terms = {k: v for k, v in env.items() if not isinstance(k, str)}
+        self._poly = {}
+
     def _poly_uncached(self, t):
         p = self._poly_uncached2(t)
+        if p is not None and getattr(self, "case_env", None):
+            for _ in range(4):
+                hit = False
+                for sname, val in self.case_env.items():
+                    if sname in p.syms():
+                        p = p.subs_poly(sname, val if isinstance(val, Poly) else Poly.const(val))
+                        hit = True
+                if not hit:
+                    break
         if p is not None:
             for sname in p.syms():
                 if sname not in self.sym_box:
@@ -599,6 +662,9 @@ class Sym:
                         return Poly.sym("loop(%s)" % "|".join(sorted(str(p) for p in ps if p not in rec)))
                     nm = "phi(%s)" % "|".join(sorted(str(p) for p in ps))
                     self.phis[nm] = ps
+                    raw = self.an.terms.defs.whole[t[1]]
+                    if len(raw) == len(ps) and not self.an.terms.defs.partial[t[1]]:
+                        self.phi_defs[nm] = [(raw[i][0], ps[i]) for i in range(len(ps))]
                     return Poly.sym(nm)
             return None
         if k in ("field", "param", "index", "try", "downcast"):
@@ -1064,6 +1130,15 @@ class Sym:
             phi_ = self.poly(hi) if hi is not None else None
             if px is not None and plo is not None and phi_ is not None:
                 return [cmp_to_rel("Ge", px, plo), cmp_to_rel("Le" if incl else "Lt", px, phi_)]
+        if d[0] == "call" and len(d[2]) == 1 and short(d[1]) in ("Option::<T>::is_some", "Option::<T>::is_none", "Result::<T, E>::is_ok", "Result::<T, E>::is_err"):
+            # same atom as a `match` on the value
+            s_ = short(d[1])
+            inner = strip(d[2][0])
+            if s_.startswith("Option"):
+                some = s_.endswith("is_some") == tr
+                return [("some" if some else "none", self.name(inner))]
+            ok = s_.endswith("is_ok") == tr
+            return [("ok" if ok else "err", self.name(inner), inner)]
         if d[0] == "call":
             return [("pred", self.name(d), tr)]
         if d[0] == "var":
